@@ -156,7 +156,7 @@ pub fn run(ctx: &Arc<Ctx>) {
     refmodels::selftest::run(&["sm3", "sm9"]).unwrap_or_else(|e| ctx.machinery_error(format!("reference self-test failed: {}", e)));
     let n = sm9::params().n.clone();
     let nm1 = &n - 1u32;
-    ctx.set_rule("Ha = q(N-1)+r as 40 bytes for q in {0,1,2,3, 2^k-1, 2^k, 2^k+1 (k=8..64 step 8), q_max-2..q_max, seeded} x r in {0,1,2,3,5,2^64,2^128,2^192,N-3,N-2,seeded} plus limb-pattern values (all-ones limbs) through the public mod_n_from_hash; H1 for every identity length 0..=300 (thorough 2100) x hid {1,2,3} x {zeros, seeded} and for 12 normalisation-sensitive identities (white space, line ends, NUL, case, trailing hid byte); H2 over message/w lengths {0,1,55,56,384,1024} and every message length 0..=300 (thorough 1200) with a 384-byte w; key extraction for master keys {1,2,N-2,Annex ks,Annex ke,seeded} x identities {Alice,Bob,'',300 bytes,seeded} x {sign,enc,exch}; master keys crafted so that H1+k = 0, +1, -1 mod N and so that the integer H1+k is 2^256+{-2..2} (carry out of 256 bits) or N+{-2..2}. Oracle: (Ha mod (N-1))+1 and [k (H1+k)^-1]P by big integers.");
+    ctx.set_rule("Ha = q(N-1)+r as 40 bytes for q in {0,1,2,3, 2^k-1, 2^k, 2^k+1 (k=8..64 step 8), q_max-2..q_max, seeded} x r in {0,1,2,3,5,2^64,2^128,2^192,N-3,N-2,seeded} plus limb-pattern values (all-ones limbs) through the public mod_n_from_hash; H1 for every identity length 0..=300 (thorough 2100) x hid {1,2,3} x {zeros, seeded} and for 12 normalisation-sensitive identities (white space, line ends, NUL, case, trailing hid byte); H2 over message/w lengths {0,1,55,56,384,1024} and every message length 0..=300 (thorough 1200) with a 384-byte w; key extraction for master keys {1,2,N-2,Annex ks,Annex ke,seeded} x identities {Alice,Bob,'',300 bytes,seeded} x {sign,enc,exch}; master keys crafted so that H1+k = 0, +1, -1 mod N and so that the integer H1+k is 2^256+{-2..2} (carry out of 256 bits) or N+{-2..2}, and so that the scalar t2 = k (H1+k)^-1 of the final multiplication is every value within 130 (thorough 600) of 0 and of N. Oracle: (Ha mod (N-1))+1 and [k (H1+k)^-1]P by big integers.");
     let mut g = SplitMix::new(ctx.seed, "c16");
     let mut cases: Vec<Case> = Vec::new();
     let two320: BigUint = BigUint::one() << 320usize;
@@ -249,6 +249,37 @@ pub fn run(ctx: &Arc<Ctx>) {
                 cases.push(Case::Extract { k: hexbig(k), id: id.into(), kind: kind.into(), tag: format!("k={}", mn) });
             }
         }
+    }
+    // master keys crafted so that the scalar of the final multiplication, t2 = k (H1 + k)^-1, is every value within W of 0
+    // and of N (a single (window, digit) coincidence of a signed-digit ladder sits at one such scalar): k = t2 H1 (1 - t2)^-1
+    {
+        let w = ctx.tier.pick(130u32, 600);
+        let mut count = 0;
+        for kind in ["sign", "enc", "exch"] {
+            let h = sm9::h1(b"Alice", hid_of(kind));
+            for j in 1..=w {
+                for (tn, t2) in [("near-0", BigUint::from(j)), ("near-N", &n - j)] {
+                    if t2.is_one() {
+                        continue;
+                    }
+                    let one_minus = (&n + 1u32 - &t2) % &n;
+                    let inv = one_minus.modpow(&(&n - 2u32), &n);
+                    let k = (&t2 * &h % &n) * inv % &n;
+                    if k.is_zero() {
+                        continue;
+                    }
+                    // self-check of the construction
+                    let t1 = (&h + &k) % &n;
+                    if (&k * t1.modpow(&(&n - 2u32), &n)) % &n != t2 {
+                        ctx.machinery_error("crafted master key does not give the intended t2");
+                        continue;
+                    }
+                    cases.push(Case::Extract { k: hexbig(&k), id: "Alice".into(), kind: kind.into(), tag: format!("t2-{}", tn) });
+                    count += 1;
+                }
+            }
+        }
+        ctx.cov("masters_with_chosen_t2", json!(count));
     }
     // master keys crafted so that the integer sum H1(ID||hid) + k sits on and next to the carry boundary 2^256 and on
     // and next to N (the wrap of the modular addition), for every identity whose H1 allows a key in [1, N-1]
